@@ -39,6 +39,7 @@ void generate(sim::Rng &r, uint64_t seed, const std::string &tier, sim::Plan &p)
   p.cfg["nfd"] = nfd;
   long nev = r.range(1, MAXEV);
   bool samefd_only = r.chance(350);
+  p.cfg["setup_interleaved"] = r.chance(500) ? 1 : 0;   // every event is enabled right after its initialize(), so later events are initialised on descriptors that are already being watched
   p.cfg["backend"] = samefd_only ? 2 : r.below(2);   // 0 epoll, 1 select, 2 both + comparison (when the plan is order-free)   // order-free family: callbacks never touch events of another descriptor
   std::vector<long> evfd;
   for (long e = 0; e < nev; ++e) {
@@ -285,7 +286,7 @@ RunResult run_once(const sim::Plan &plan, int backend) {
     int fdidx = (int)(((op.arg(0) % W.nfd) + W.nfd) % W.nfd);
     int mask = (int)std::max(1L, std::min(3L, op.arg(1)));
     make_event(e, fdidx, mask, op.arg(2) != 0, (int)std::max(1L, std::min(3L, op.arg(4, 1))));
-    if (op.arg(3)) enable_at_start.push_back(e);
+    if (op.arg(3)) { if (plan.get("setup_interleaved")) do_enable(e); else enable_at_start.push_back(e); }
   }
   if (W.nev == 0) { W.nev = 1; make_event(0, 0, R, false, 1); }
   for (int e : enable_at_start) do_enable(e);
